@@ -116,6 +116,10 @@ theorem wave_storage_roundtrip (junk : Int → T) (l : Int) (c : Nat) (w : Wv) (
     ∀ a, ¬ (l ≤ a ∧ a < l + (c : Int)) → wrWave junk l c w m a = m a :=
   ⟨rd_wr_fit junk l c w m hf, fun a h => wrWave_frame junk l c w m a h⟩
 
+/-- non-vacuity: a two-entry waveform fits a region of capacity 4 (not one of capacity 2) -/
+example : Fits 4 ⟨[T.tmin, T.fin 8], T.tmax⟩ ∧ ¬ Fits 2 ⟨[T.tmin, T.fin 8], T.tmax⟩ := by
+  refine ⟨⟨by decide, by decide, rfl⟩, fun h => absurd h.1 (by decide)⟩
+
 /-- **writes stay inside the capacity**: for delays ≥ 0, output capacity ≥ 4 and well-formed operands the evaluator's
     result has at most `cap - 1` entries, none of them a terminator, and a terminator — it fits the output region -/
 theorem wave_result_fits (cfg : WCfg) (op : Op) (xs : List Wv) (hd : ∀ l p q, 0 ≤ cfg.delay l p q)
@@ -125,6 +129,34 @@ theorem wave_result_fits (cfg : WCfg) (op : Op) (xs : List Wv) (hd : ∀ l p q, 
 /-- an input slot as `s_to_c` fills it (three cells) reads as the stimulus waveform; fresh memory reads as constant 0 -/
 theorem stimulus_in_memory (l : Int) (c : Nat) (m : Int → T) (i f : Bool) (t : Int)
     (h : (cells l c m).take 3 = stimCells i t f) : rdWave l c m = stimWave i t f := rdWave_stim l c m i f t h
+
+/-- the initial memory of a simulation — `s_to_c` has written its three cells into every input slot (initial value, transition
+    time, final value per slot: `stim`), the zero slot still starts with the `TMAX` of the freshly allocated array — satisfies
+    the stimulus hypothesis of the theorems below: all these regions read as well-formed waveforms, namely the stimulus
+    waveforms `stimWave` and the constant 0 -/
+theorem stimulus_memory_ok (p : MapIn) (m0 : Int → T) (stim : Nat → Bool × Int × Bool)
+    (hs : ∀ x ∈ p.ppiSlots, (cells (p.loc x) (p.cap x) m0).take 3 = stimCells (stim x).1 (stim x).2.1 (stim x).2.2)
+    (hz : (cells (p.loc p.ix.zero) (p.cap p.ix.zero) m0).head? = some T.tmax) :
+    (∀ x, x ∈ p.ppiSlots ∨ x = p.ix.zero → (rdWave (p.loc x) (p.cap x) m0).ok) ∧
+    (∀ x ∈ p.ppiSlots, inputEnv p m0 x = stimWave (stim x).1 (stim x).2.1 (stim x).2.2) := by
+  constructor
+  · intro x hx
+    by_cases hxp : x ∈ p.ppiSlots
+    · rw [rdWave_stim _ _ _ _ _ _ (hs x hxp)]; exact stimWave_ok _ _ _
+    · rcases hx with h | h
+      · exact absurd h hxp
+      · subst h; rw [rdWave_tmax_head _ _ _ hz]; exact Wv.empty_ok
+  · intro x hx
+    unfold inputEnv
+    rw [if_pos (Or.inl hx)]
+    exact rdWave_stim _ _ _ _ _ _ (hs x hx)
+
+/-- for an accepted map the region a row writes overlaps the region of none of its operands — so "read the four operand
+    waveforms, evaluate, store the result" (the step of the memory model) describes an evaluator that, like `_wave_eval`,
+    reads operand cells and writes output cells interleaved -/
+theorem operands_disjoint_from_output (p : MapIn) (hc : p.check = none) (k : Nat) (o : OpRow) (hk : p.ops[k]? = some o)
+    (i : Nat) (hi : i ∈ o.ins) : p.overlap i o.out = false :=
+  operand_output_disjoint (good_of_check p hc) hk hi
 
 /-- **memory level = signal level** (any map the certificate accepts, any implementation of the evaluator calls that
     honours `WaveStep`, any duplicate-free execution order that respects `level_starts`): the region of every output slot
@@ -244,5 +276,18 @@ example (junk : Int → Nat → Wv → (Int → T) → Int → T) :
   rw [hloc.1, hloc.2] at key
   rw [key]
   exact memDemo_sim
+
+/-- the demo memory is what `s_to_c` leaves for `a = (0, 5, 1)`, `b = (1, ·, 1)` (hypotheses of `stimulus_memory_ok`), and the
+    regions written by the rows avoid their operands' regions although line 5 re-uses the region of line 0 -/
+example :
+    let stim : Nat → Bool × Int × Bool := fun x => if x = 9 then (false, 5, true) else (true, 0, true)
+    (∀ x ∈ memDemo.ppiSlots, (cells (memDemo.loc x) (memDemo.cap x) memDemoM0).take 3 =
+      stimCells (stim x).1 (stim x).2.1 (stim x).2.2) ∧
+    (cells (memDemo.loc memDemo.ix.zero) (memDemo.cap memDemo.ix.zero) memDemoM0).head? = some T.tmax ∧
+    memDemo.loc 5 = memDemo.loc 0 ∧
+    (memDemo.ops.all fun o => o.ins.all fun i => !memDemo.overlap i o.out) = true := by
+  intro stim
+  rw [memDemo_tables.2.2.1]
+  decide +kernel
 
 end KV.C03
